@@ -11,6 +11,8 @@ pub mod c11;
 pub mod c12;
 pub mod c13;
 pub mod c14;
+pub mod c15;
+pub mod c16;
 pub mod c18;
 pub mod hist;
 
@@ -40,6 +42,8 @@ pub fn run(id: &str, tier: Tier, seed: u64) -> Option<i32> {
         "C09" => Some(c09::run(tier, seed)),
         "C13" => Some(c13::run(tier, seed)),
         "C14" => Some(c14::run(tier, seed)),
+        "C15" => Some(c15::run(tier, seed)),
+        "C16" => Some(c16::run(tier, seed)),
         _ => hist_prop(id).map(|hp| hist::run(&hp, tier, seed)),
     }
 }
@@ -52,6 +56,8 @@ pub fn replay(id: &str, v: &serde_json::Value) -> Result<Option<String>, String>
         "C09" => c09::replay(v),
         "C13" => c13::replay(v),
         "C14" => c14::replay(v),
+        "C15" => c15::replay(v),
+        "C16" => c16::replay(v),
         _ => match hist_prop(id) {
             Some(hp) => hist::replay_value(&hp, v),
             None => Err(format!("unknown property {}", id)),
